@@ -106,6 +106,19 @@ def run(chk, F, tier):
         p = cfgutil.paths_avoiding(succ, 0, {bb}, W) if W else [0]
         chk.check(p is None, "R39b", key + ":written", "rename reachable without a complete write of the temporary file",
                   b.loc(c["l"]), witness={"path_blocks": p})
+        # a buffered writer must itself be flushed (or unwrapped/dropped) before the rename: syncing the inner File
+        # does not write what is still in the buffer
+        for wbb in W:
+            wc = b.blocks[wbb][2][1]
+            recv_ty = b.ty_str(wc["ga"][0]) if wc.get("ga") else ""
+            if any(x in recv_ty for x in ("BufWriter", "LineWriter")):
+                fl = {x for x, cc in b.calls() if (cc.get("r") or cc.get("f") or "").split("::")[-1] in ("flush", "into_inner", "into_parts")
+                      and any(y in " ".join(b.ty_str(g) for g in cc.get("ga", [])) + (cc.get("r") or "") for y in ("BufWriter", "LineWriter"))}
+                pf = cfgutil.paths_avoiding(succ, 0, {bb}, fl) if fl else [0]
+                chk.check(pf is None, "R39b", key + ":buffer-flushed",
+                          "the temporary file is written through a %s that is not flushed before the rename: the renamed file can be "
+                          "empty or partial while the content is written only when the buffer is dropped, after the rename" % recv_ty,
+                          b.loc(c["l"]))
         p = cfgutil.paths_avoiding(succ, 0, {bb}, S) if S else [0]
         chk.check(p is None, "R39b", key + ":flushed", "rename reachable without flushing/closing the temporary file",
                   b.loc(c["l"]), witness={"path_blocks": p})
